@@ -10,7 +10,9 @@
 (*   post      the endpoint received a POST: pts = <<series, id>> pairs in    *)
 (*             body order, st = class of the answer it gave                   *)
 (*   quiesce   the driver waited until everything accepted was acknowledged   *)
-(*   sdcall / sdret / sdtimeout   Shutdown                                    *)
+(*   sdcall / sdret / sdtimeout   Shutdown (sdcall carries the number of      *)
+(*             Dispatch calls parked on a full queue at that moment)          *)
+(*   blocked   n Dispatch calls are still parked at the end (not judged)      *)
 (*   final     counter deltas at the end                                      *)
 (* Every well-formed line is matched; the clauses of the property that an     *)
 (* execution breaks are collected by the operators in o.viol and printed per  *)
@@ -40,15 +42,16 @@ TQuiesce == Is("quiesce") /\ o' = OQuiesce(o, Ev.ok, blocking, l) /\ Same
 TSdCall == Is("sdcall") /\ o' = OSdCall(o, l) /\ Same
 TSdRet == Is("sdret") /\ o' = OSdRet(o, blocking, l) /\ Same
 TSdTimeout == Is("sdtimeout") /\ o' = OSdTimeout(o, l) /\ Same
+TBlocked == Is("blocked") /\ o' = OBlocked(o, Ev.n, l) /\ Same
 TFinal == /\ Is("final") /\ Same
           /\ o' = OFinal(o, Ev.drops, blocking, l)
           /\ PrintT("@@V " \o ToJson([k |-> k, viol |-> o'.viol, dispatched |-> Cardinality(o.called),
                                       acked |-> Cardinality(o.acked), dropped |-> Ev.drops]))
 
-TNext == TScen \/ TDisp \/ TRet \/ TStall \/ TPost \/ TQuiesce \/ TSdCall \/ TSdRet \/ TSdTimeout \/ TFinal
+TNext == TScen \/ TDisp \/ TRet \/ TStall \/ TPost \/ TQuiesce \/ TSdCall \/ TSdRet \/ TSdTimeout \/ TBlocked \/ TFinal
 TSpec == TInit /\ [][TNext]_tvars
 
 HighWater == TLCSet(1, IF l - 1 > TLCGet(1) THEN l - 1 ELSE TLCGet(1))
 Post == PrintT("@@TRACE " \o ToJson([matched |-> TLCGet(1)]))
-TypeInv == o.acked \subseteq o.posted /\ o.posted \subseteq o.called /\ o.accd \cap o.dropd = {}
+TypeInv == o.acked \subseteq o.posted /\ o.posted \subseteq o.called /\ o.accd \cap o.dropd = {} /\ o.retd \subseteq o.called
 =============================================================================
